@@ -50,7 +50,7 @@ Qed.
 Lemma js_receiver_reify en pc x s : js_ok en x ->
   js_receiver (reify_e en pc x) s = if needs_paren en x then ("(" ++ s ++ ")")%string else s.
 Proof.
-  destruct x as [n|k|n|i|i|n|n|o a b|a|a|f args|f args|items|items|fam pid a|pid it mn|tk ti|tn|an ax]; intros Hok; cbn [reify_e needs_paren js_receiver]; try reflexivity.
+  destruct x as [n|k|n|i|i|n|n|o a b|a|a|f args|f args|items|items|fam pid a|pid it mn|tk ti|tn|an ax|kn]; intros Hok; cbn [reify_e needs_paren js_receiver]; try reflexivity.
   - rewrite str_of_int_no_quote. reflexivity.
   - destruct (nth k (e_consts en) (CInt 0)); cbn [const_node js_receiver]; [|rewrite str_of_int_no_quote; reflexivity].
     match goal with |- context[starts_with ?q ?t] => destruct (starts_with q t) end; reflexivity.
@@ -189,6 +189,10 @@ Proof.
     apply negb_true_iff in Hme. apply negb_true_iff in Htell.
     erewrite accessor_js; [reflexivity | | exact Htell]. cbn [gen_js js_leaf]. rewrite Hme, andb_false_r. reflexivity.
   - intros n x _ [].
+  - (* key / mouse / date property *) intros n _ pc ind. cbn [reify_e to_js gen_js].
+    destruct (String.eqb (nm en n) "date" || String.eqb (nm en n) "time").
+    + cbn [pp_js map]. unfold join. repeat rewrite sapp_assoc. reflexivity.
+    + destruct (assoc_str (nm en n) OPERATION_KNOWN_PROPERTIES); reflexivity.
   - intros _ pc ind. reflexivity.
   - intros x l IHx IHl [Hx Hl] pc ind. cbn [reify_args]. destruct (reify_args en (pc + zlen (compile_e x)) l) as [ns pa] eqn:Er.
     cbn [fst map]. rewrite (IHx Hx). specialize (IHl Hl (pc + zlen (compile_e x))%Z ind). rewrite Er in IHl. cbn [fst] in IHl. rewrite IHl. reflexivity.
@@ -224,6 +228,7 @@ Proof.
   - destruct f; try exact I. reflexivity.
   - destruct k; exact I.
   - destruct (assoc_str (nm en n) ASSIGN_KNOWN_PROPERTIES); exact I.
+  - destruct (String.eqb (nm en n) "date" || String.eqb (nm en n) "time"); exact I.
 Qed.
 Lemma read_count j t : (match j with JIdx m0 _ => is_menubar m0 = false | _ => True end) ->
   read_js (JDot (JDot j t) (js_una "number")) = option_map (NChunkCount t) (read_js j).
@@ -287,6 +292,8 @@ Proof.
       apply negb_true_iff in H. rewrite H. reflexivity.
     + destruct fm; reflexivity.
   - intros n x _. reflexivity.
+  - intros n. cbn [to_js name_e]. destruct (String.eqb (nm en n) "date" || String.eqb (nm en n) "time"); [reflexivity|].
+    cbn [read_js]. destruct (String.eqb _ "_global"); reflexivity.
   - constructor.
   - intros x l Hx Hl. constructor; assumption.
 Qed.
